@@ -8,7 +8,7 @@ Acceptance of whitespace/comments "in every context" and verdict equality are be
   R-C14-type-block        a type block desugars to Resources.*[ Type == '<name>' ] (all-values, filter, match_all, ==, not negated)
   R-C14-default-rule      clauses outside any rule become one rule named `default` with no condition, placed first
 """
-from engine import mirlib as M
+from engine import flow, mirlib as M
 from rules.c08 import def_of_local
 
 LEVEL = "other"
@@ -427,6 +427,49 @@ def keyword_boundaries(ctx, cr):
                if not (has_term and has_sep) else "%s requires %s after the keyword" % (key.split("::")[-1], [x.split("::")[-1] for x in seps if x in items]), fn=cr.fns[key])
 
 
+LITERAL_TEXT_OPS = {
+    # operations the text of a string / regex literal may pass through between the input and the parsed value
+    "nom_locate::LocatedSpan::fragment": "the matched text",
+    "<nom_locate::LocatedSpan<T, X> as nom::Slice<R>>::slice": "advance past the escape",
+    "<nom_locate::LocatedSpan<T, X> as nom::InputTake>::take_split": "advance past the escape",
+    "<&'a str as nom::Slice<std::ops::Range<usize>>>::slice": "drop the ONE escaping backslash (0..len-1)",
+    "core::str::traits::<impl std::ops::Index<I> for str>::index": "drop the ONE escaping backslash (0..len-1)",
+    "core::str::<impl str>::len": "operand of len-1",
+    "<std::result::Result<T, E> as std::ops::Try>::branch": "error propagation of the nom parser",
+    "nom::bytes::complete::take_while": "up to the delimiter", "nom::bytes::complete::take_while::{closure#0}": "up to the delimiter",
+    "nom::bytes::complete::is_not": "up to the delimiter", "nom::bytes::complete::is_not::{closure#0}": "up to the delimiter",
+    "nom::character::complete::char": "the delimiter", "nom::character::complete::char::{closure#0}": "the delimiter",
+}
+
+
+def literal_text_preserved(ctx, cr):
+    """the text between the delimiters of a string or regex literal becomes the value unchanged, except that the single backslash in
+    front of an escaped delimiter is dropped: on the backward slice of everything push_str-ed into the literal only the operations of
+    the table occur (a trim / replace / case change there alters what the literal means)"""
+    rule = "R-C14-literal-text"
+    for key in (P + "parse_string_inner::{closure#0}", P + "parse_regex_inner"):
+        f = cr.fns.get(key)
+        if not f:
+            ctx.lost(rule, "%s:%s" % (rule, key.split("::")[2]), key)
+            continue
+        bad = []
+        n = 0
+        for bi, t in M.iter_calls(f):
+            p = M.norm_path(t["fn"].get("path", ""))
+            if not p.endswith("String::push_str"):
+                continue
+            n += 1
+            pl = M.op_place(t["args"][1])
+            if pl is None:
+                continue
+            calls, consts, locs = flow.backward_slice(f, M.place_local(pl))
+            for c in calls:
+                cp = M.norm_path(c["fn"].get("path", ""))
+                if cp not in LITERAL_TEXT_OPS:
+                    bad.append("%s (l.%s)" % (cp, c.get("ln")))
+        ctx.ob(rule, "%s:%s" % (rule, key.split("::")[2]), n >= 2 and not bad, ("the literal's text passes through %s before it becomes the value" % sorted(set(bad))[:3]) if bad else "%d push_str sites, text only sliced at the escape" % n, fn=f)
+
+
 def run(ctx):
     cr = ctx.lib
     keyword_synonyms(ctx, cr)
@@ -436,6 +479,7 @@ def run(ctx):
     default_rule(ctx, cr)
     comments_are_whitespace(ctx, cr)
     keyword_boundaries(ctx, cr)
+    literal_text_preserved(ctx, cr)
     ctx.assumptions += [
         "nom's tag/char/alt/value combinators behave as documented (dependency)",
         "ambiguity of ordered alternatives and whitespace/comment acceptance inside a clause are not decided",
